@@ -706,4 +706,11 @@ class C15(CoreCheck):
         return st
 
 
+COMMON_ASSUMPTIONS = [
+    "scenario alphabet: at most 16 objects of each kind (descriptors, timers, tasks, iv_events, raw events), handler ids 0..15, "
+    "conditions 0..15 (wf_scenario / ok_idx); within it the theorems quantify over all programs, handler scripts, kernel "
+    "behaviours, poll methods and fault sets; one loop, one init/use/deinit cycle per scenario (cycles and thread churn: harness/churn.c)",
+]
 ALL = {"C01": C01, "C02": C02, "C03": C03, "C04": C04, "C06": C06, "C07": C07, "C09": C09, "C15": C15, "C18": C18}
+for _c in ALL.values():
+    _c.assumptions = list(getattr(_c, "assumptions", [])) + COMMON_ASSUMPTIONS
